@@ -31,8 +31,25 @@ fn session_hash(out: &mut Out, cfg: &Cfg, steps: &[Step]) {
 }
 
 fn new_session(cfg: &Cfg, out: &mut Out) -> Session {
+    let t0 = wall_ns() as i128;
     let sess = Session::new(cfg);
+    let t1 = wall_ns() as i128;
     out.line(sess.store.snew_line(), "ok".into());
+    // the model twin takes over the store's first cleanup deadline as it finds it; that the deadline is
+    // "construction time + the configured interval" is checked here, against the wall clock (C07: the first
+    // guaranteed cleanup point of a periodic store is one interval after it was built)
+    if let Cfg::Periodic { interval_ns, .. } = cfg {
+        if let Some(next) = sess.store.field("next") {
+            let iv = *interval_ns as i128;
+            if next < t0 + iv || next > t1 + iv {
+                out.violation(
+                    "C07",
+                    format!("a periodic store built with cleanup interval {iv} ns schedules its first cleanup {} ns after construction", next - t0),
+                    vec![crate::oracles::cfg_line(cfg), format!("# constructed between {t0} and {t1} ns, next_cleanup = {next}")],
+                );
+            }
+        }
+    }
     sess
 }
 
@@ -369,6 +386,7 @@ pub fn storeops(seed: u64, n: usize, out: &mut Out) {
         let mut log: Vec<String> = vec![cfg_line(&cfg)];
         let mut canon = cfg.describe();
         let mut fails = 0;
+        let mut prev_key: Option<String> = None;
         for _ in 0..steps {
             // time: straddle the store's triggers
             let next_in = store.field("next").map(|x| x - now as i128);
@@ -380,7 +398,16 @@ pub fn storeops(seed: u64, n: usize, out: &mut Out) {
             }
             let g = gaps[rng.below(gaps.len() as u64) as usize].clamp(0, 1 << 60) as i64;
             now = now.saturating_add(g).min(4_102_444_800_000_000_000);
-            let key = keys[rng.below(keys.len() as u64) as usize].clone();
+            // one op in three stays on the key of the previous op (read-then-write and write-after-failed-write sequences)
+            let key = match &prev_key {
+                Some(k) if rng.chance(1, 3) => k.clone(),
+                _ => keys[rng.below(keys.len() as u64) as usize].clone(),
+            };
+            prev_key = Some(key.clone());
+            if rng.chance(1, 40) {
+                store.relocate();
+                out.bump("store_relocations");
+            }
             let kh = hex(key.as_bytes());
             let ttl: u64 = rng.pick(&[0u64, 0, 1, 1, 2, 1000, 1_000_000_000, 5_000_000_000, 60_000_000_000, u64::MAX / 4, (1u64 << 62), i64::MAX as u64]);
             let t = ns_to_time(now);
@@ -895,6 +922,97 @@ fn bucket_and_fields_nonmono(cfg: &Cfg, steps: &[Step], out: &mut Out) {
         if let Resp::Ok { allowed, limit, remaining, retry_ns, .. } = &s.resp {
             if *limit != s.rq.lim.b || *remaining < 0 || remaining > limit || ((*retry_ns == 0) != *allowed) {
                 out.violation("C17", format!("inconsistent response {} under clock regression", s.resp.show()), replay_lines(cfg, steps, i));
+            }
+        }
+    }
+}
+
+// ---------------------------------------------------------------------------------------
+// popul: large populations of simultaneously live keys (no model lines: a list-based model of a million
+// entries is out of reach; oracles on the real code only).  States that take 10^3 .. 10^6 distinct keys
+// to reach: table growth past every power of two up to 2^20, the adaptive store's memory-pressure trigger,
+// a sweep that finds tens of thousands of expired entries at once.
+// ---------------------------------------------------------------------------------------
+pub fn popul(seed: u64, n: usize, out: &mut Out) {
+    let mut rng = Rng::new(seed);
+    let rounds = 1 + n / 4;
+    for round in 0..rounds {
+        // the stores as a user builds them: library defaults, the server's defaults, a small and a zero capacity
+        let cfgs: Vec<(Cfg, usize)> = vec![
+            (Cfg::Periodic { cap: rng.pick(&[1000usize, 100_000, 8]), interval_ns: rng.pick(&[60_000_000_000u64, 300_000_000_000, 1_000_000_000]) }, 1_100_000),
+            (Cfg::Prob { cap: rng.pick(&[1000usize, 100_000, 0]), modulus: rng.pick(&[1000u64, 10_000, 7]), ops: 0 }, 1_100_000),
+            (Cfg::Adaptive { cap: rng.pick(&[1000usize, 8, 0]), min_ns: 1_000_000_000, max_ns: 300_000_000_000, max_ops: rng.pick(&[100_000usize, 1_000_000]) }, 70_000),
+        ];
+        for (cfg, nmax) in cfgs {
+            let nmax = if round == 0 { nmax } else { nmax.min(70_000) };
+            out.line(format!("note popul round {round} {} keys {nmax}", cfg_line(&cfg)), format!("note popul round {round} {} keys {nmax}", cfg_line(&cfg)));
+            let mut sess = Session::new(&cfg);
+            sess.store.0.borrow_mut().record = false;
+            // every key: burst 1, one token per hour -> its state lives one hour; all of them are live at once
+            let lim = Lim { b: 1, c: 1, p: 3600 };
+            let t0 = wall_ns() + 1_000_000_000;
+            let mut checkpoints: Vec<usize> = vec![1_000, 1_500, 1_791, 1_792, 1_793, 2_100, 4_096, 16_384, 32_000, 32_001, 40_000, 65_536, 65_537, 70_000, 131_072, 262_144, 524_288, 1_048_575, 1_048_576, 1_048_577, 1_100_000];
+            checkpoints.retain(|c| *c <= nmax);
+            let mut bad = false;
+            let mut t = t0;
+            let replay_of = |what: &str, i: usize| vec![cfg_line(&cfg), format!("# {i} distinct keys p<i> (burst 1, 1 per 3600 s) admitted once each from t = {t0} ns, 1 ns apart; then: {what}")];
+            'fill: for i in 0..nmax {
+                t = t0 + i as i64;
+                let st = sess.call(&Rq { key: format!("p{i}"), lim, q: 1, now: t });
+                sess.history.clear();
+                match st.resp {
+                    Resp::Ok { allowed: true, limit: 1, remaining: 0, .. } => {}
+                    ref r => {
+                        let tag = if matches!(r, Resp::Panic | Resp::Err(_)) { "C08" } else { "C02" };
+                        out.violation(tag, format!("first request on never-seen key number {i} (with {i} other keys live) answered {} ({})", r.show(), cfg_line(&cfg)), replay_of("the first request on the next fresh key", i));
+                        bad = true;
+                        break 'fill;
+                    }
+                }
+                if checkpoints.contains(&(i + 1)) {
+                    // the key just admitted is exhausted: `remaining = 0` must be exact (C03), i.e. its state was stored
+                    let st = sess.call(&Rq { key: format!("p{i}"), lim, q: 1, now: t });
+                    if st.resp.allowed() != Some(false) {
+                        out.violation("C03", format!("key number {i} was admitted with remaining 0, a second request at the same instant is answered {} ({}, {} keys live)", st.resp.show(), cfg_line(&cfg), i + 1), replay_of("a second request on the key admitted last", i + 1));
+                        bad = true;
+                        break 'fill;
+                    }
+                    // an old key is still limited (C06: a visible entry is never lost while the table grows)
+                    let j = rng.below(i as u64 + 1) as usize;
+                    let st = sess.call(&Rq { key: format!("p{j}"), lim, q: 1, now: t });
+                    if st.resp.allowed() != Some(false) {
+                        out.violation("C06", format!("key number {j} (burst 1, admitted {} ns ago, state lives an hour) is admitted again with {} keys live: answered {} ({})", i - j, i + 1, st.resp.show(), cfg_line(&cfg)), replay_of(&format!("a second request on key p{j}"), i + 1));
+                        bad = true;
+                        break 'fill;
+                    }
+                    sess.history.clear();
+                    out.bump("popul_checkpoints");
+                }
+            }
+            if bad {
+                continue;
+            }
+            // everything expires; writes of fresh short-lived keys until each store's guaranteed cleanup point has
+            // certainly passed (periodic / adaptive: a write after the deadline; probabilistic: N further writes)
+            let (len0, _) = sess.store.len_cap();
+            let later = t + 2 * 3600 * 1_000_000_000 + 400_000_000_000;
+            let short = Lim { b: 1, c: 1000, p: 1 };
+            let extra = match &cfg { Cfg::Prob { modulus, .. } => *modulus as usize + 2, _ => 3 };
+            for k in 0..extra {
+                let st = sess.call(&Rq { key: format!("z{k}"), lim: short, q: 1, now: later + k as i64 * 2_000_000 });
+                sess.history.clear();
+                if st.resp.allowed() != Some(true) {
+                    out.violation("C02", format!("fresh key after the whole population has expired answered {} ({})", st.resp.show(), cfg_line(&cfg)), replay_of("2 h 7 min later, fresh keys z<k> (burst 1, 1000 per s)", nmax));
+                }
+            }
+            let (len1, _) = sess.store.len_cap();
+            if len1 > extra + 2 {
+                out.violation("C07", format!("{len0} entries whose lifetime passed more than an hour ago: after the store's guaranteed cleanup point {len1} entries are still held ({}, {extra} writes of fresh keys after the deadline)", cfg_line(&cfg)), replay_of(&format!("2 h 7 min later, {extra} fresh keys z<k> (burst 1, 1000 per s) 2 ms apart; entries held afterwards: {len1}"), nmax));
+            }
+            out.add("popul_keys", nmax as u64);
+            out.note_case(&format!("{}:{nmax}", cfg_line(&cfg)));
+            if out.samples.len() < 3 {
+                out.sample(format!("{} | {nmax} keys live at once, {len0} entries before expiry, {len1} after the cleanup point", cfg_line(&cfg)));
             }
         }
     }
